@@ -555,6 +555,8 @@ class Prop(Check):
         "Repo.C17_load_base",
         "Repo.C17_history_terminates",
         "Repo.C17_history_next",
+        "Repo.C17_targets_untouched",
+        "Repo.C17_history_identity",
     ]
     DRIVER = "Drivers/Repo.lean"
     QUICK_CASES = 300
